@@ -176,9 +176,14 @@ pub fn variant_name(dbg: &str) -> String {
         .to_string()
 }
 
-pub fn new_runtime(seed: u64) -> tokio::runtime::Runtime {
+/// Seeds every per-thread source of randomness the code under simulation draws from.
+pub fn seed_thread(seed: u64) {
     fastrand::seed(seed);
     passage_protocol::verif::rng::seed_tokens(Some(seed ^ 0x7043_4b45_4e53));
+}
+
+pub fn new_runtime(seed: u64) -> tokio::runtime::Runtime {
+    seed_thread(seed);
     tokio::runtime::Builder::new_current_thread()
         .enable_time()
         .start_paused(true)
